@@ -780,7 +780,7 @@ def _delegations(d, known, fresh_only=True):
     """[(F, G)]: F is a function of the pinned tree whose whole body is `G(its own parameters, in
     order)` - the result handed back as it is (or re-borrowed) - and G is a crate-private
     function the pinned tree does not have, with the same parameter and result types."""
-    if not known:
+    if not known and fresh_only:
         return []
     by_path = {}
     for b in d["bodies"]:
